@@ -12,8 +12,11 @@ static int mm_requests, mm_failed, mm_frees, mm_armed;   /* failures are injecte
 #endif
 static void *mm_malloc(UriMemoryManager *m, size_t n){ (void)m; MM_MAYFAIL(); return uk_malloc(n); }
 static void *mm_calloc(UriMemoryManager *m, size_t a, size_t b){ void *p; (void)m; MM_MAYFAIL(); p = uk_malloc(a * b); memset(p, 0, a * b); return p; }
-static void *mm_realloc(UriMemoryManager *m, void *p, size_t n){ (void)m; (void)p; (void)n; uk_fail("manager realloc called"); return 0; }
-static void *mm_reallocarray(UriMemoryManager *m, void *p, size_t a, size_t b){ (void)m; (void)p; (void)a; (void)b; uk_fail("manager reallocarray called"); return 0; }
+static void mm_free(UriMemoryManager *m, void *p);
+/* realloc always moves to a new exact-size block (the strictest behaviour the C standard allows): stale pointers and reads beyond a shrunk size are caught */
+static void *mm_realloc(UriMemoryManager *m, void *p, size_t n){ size_t old; void *q; if (!p) return mm_malloc(m, n); if (n == 0){ mm_free(m, p); return 0; }
+  MM_MAYFAIL(); old = uk_blocksize(p); q = uk_malloc(n); memcpy(q, p, old < n ? old : n); uk_free(p); return q; }
+static void *mm_reallocarray(UriMemoryManager *m, void *p, size_t a, size_t b){ if (a != 0 && b > (size_t)-1 / a) return 0; return mm_realloc(m, p, a * b); }
 static void mm_free(UriMemoryManager *m, void *p){ (void)m; mm_frees++; uk_free(p); }
 static UriMemoryManager mm = { mm_malloc, mm_calloc, mm_realloc, mm_reallocarray, mm_free, 0 };
 #endif
